@@ -124,6 +124,26 @@ Proof. exact flag_sound_implicit. Qed.
 Print Assumptions C07_dflt_flag_sound_implicit.
 
 (* ------------------------------------------------------------------------------------------- *)
+(* the canonical order is kept                                                                   *)
+(* ------------------------------------------------------------------------------------------- *)
+(* validation (auto-deletion, creation of the implicit nodes with lyd_insert_node = Tree.insert_node, the bottom-up flag
+   pass) and lyd_new_implicit_all keep the tree canonical: siblings in schema order, instances contiguous and (system
+   ordered) sorted, one instance of a leaf / container, list instances with their keys, recursively. Schema hypotheses
+   (executable, checked on every generated schema): unique schema ids, keys lead (schema_okb), key leaves have no default
+   and are not in a choice. Uses Tree.insert_node_canon for every created node. *)
+Theorem C07_validate_canon : forall sch f g d,
+  sids_uniqb sch = true -> schema_okb sch = true -> keys_plainb sch = true ->
+  Canon sch f -> validate_all sch f = Ok (g, d) -> Canon sch g.
+Proof. exact validate_canon. Qed.
+Print Assumptions C07_validate_canon.
+
+Theorem C07_implicit_all_canon : forall sch nostate f g d,
+  sids_uniqb sch = true -> schema_okb sch = true -> keys_plainb sch = true ->
+  Canon sch f -> implicit_all sch nostate f = Ok (g, d) -> Canon sch g.
+Proof. exact implicit_all_canon. Qed.
+Print Assumptions C07_implicit_all_canon.
+
+(* ------------------------------------------------------------------------------------------- *)
 (* the change list                                                                               *)
 (* ------------------------------------------------------------------------------------------- *)
 (* refuted in general (vdiff-np-container): choice ch { case a { container c; leaf e } case b { leaf z } }; <e>q</e> is
@@ -176,7 +196,8 @@ Print Assumptions C07_wd_modes_rfc6243_refuted.
    parsed input e, w: validation succeeds, the result (e, d default, y default, w) is the normal form, its flags are
    sound and consistent for printing, and validating it again changes nothing *)
 Example C07_hypotheses_satisfiable :
-  chc_okb w1_sch = true /\ schema_okb w1_sch = true /\
+  chc_okb w1_sch = true /\ schema_okb w1_sch = true /\ sids_uniqb w1_sch = true /\ keys_plainb w1_sch = true /\
+  canonb w1_sch None w1_parsed = true /\
   (exists d, validate_all w1_sch w1_parsed = Ok (w1_valid, d) /\ d <> []) /\
   normalb w1_sch w1_valid = true /\ flag_soundb w1_sch w1_valid = true /\ wd_wf_forest w1_sch w1_valid = true /\
   validate_all w1_sch w1_valid = Ok (w1_valid, []).
